@@ -18,7 +18,7 @@ use crate::tags::{
     ATOM_CACHE_REF, ATOM_EXT, ATOM_UTF8_EXT, BINARY_EXT, BIT_BINARY_EXT, COMPRESSED_EXT,
     DIST_FRAG_HEADER, DIST_HEADER, EXPORT_EXT, FLOAT_EXT, INTEGER_EXT, LARGE_BIG_EXT,
     LARGE_TUPLE_EXT, LIST_EXT, LOCAL_EXT, MAP_EXT, NEW_FLOAT_EXT, NEW_FUN_EXT, NEW_PID_EXT,
-    NEW_REFERENCE_EXT, NEWER_REFERENCE_EXT, NIL_EXT, PID_EXT, PORT_EXT, REFERENCE_EXT,
+    NEW_PORT_EXT, NEW_REFERENCE_EXT, NEWER_REFERENCE_EXT, NIL_EXT, PID_EXT, PORT_EXT, REFERENCE_EXT,
     SMALL_ATOM_EXT, SMALL_ATOM_UTF8_EXT, SMALL_BIG_EXT, SMALL_INTEGER_EXT, SMALL_TUPLE_EXT,
     STRING_EXT, V4_PORT_EXT, VERSION,
 };
@@ -276,6 +276,7 @@ fn parse_term_from_tag<'a>(
         NEW_PID_EXT => parse_new_pid(input, cache),
         NEWER_REFERENCE_EXT => parse_newer_reference(input, cache),
         V4_PORT_EXT => parse_v4_port(input, cache),
+        NEW_PORT_EXT => parse_new_port(input, cache),
         EXPORT_EXT => parse_export_ext(input, cache),
         NEW_FUN_EXT => parse_new_fun_ext(input, cache),
         DIST_HEADER => {
@@ -783,6 +784,22 @@ fn parse_v4_port<'a>(input: &'a [u8], cache: &AtomCache) -> NomResult<'a, OwnedT
     ))
 }
 
+fn parse_new_port<'a>(input: &'a [u8], cache: &AtomCache) -> NomResult<'a, OwnedTerm> {
+    let (input, node_term) = parse_term(input, cache)?;
+    let node = match node_term {
+        OwnedTerm::Atom(a) => a,
+        _ => return Err(nom::Err::Failure(NomError::new(input, ErrorKind::Tag))),
+    };
+
+    let (input, id) = be_u32(input)?;
+    let (input, creation) = be_u32(input)?;
+
+    Ok((
+        input,
+        OwnedTerm::Port(ExternalPort::new(node, id as u64, creation)),
+    ))
+}
+
 fn parse_export_ext<'a>(input: &'a [u8], cache: &AtomCache) -> NomResult<'a, OwnedTerm> {
     let (input, module_term) = parse_term(input, cache)?;
     let module = match module_term {
@@ -918,6 +935,7 @@ fn parse_term_borrowed<'a>(
         NEW_PID_EXT => parse_new_pid_borrowed(input, original_len, ctx),
         NEWER_REFERENCE_EXT => parse_newer_reference_borrowed(input, original_len, ctx),
         V4_PORT_EXT => parse_v4_port_borrowed(input, original_len, ctx),
+        NEW_PORT_EXT => parse_new_port_borrowed(input, original_len, ctx),
         EXPORT_EXT => parse_export_ext_borrowed(input, original_len, ctx),
         NEW_FUN_EXT => parse_new_fun_ext_borrowed(input, original_len, ctx),
         _ => Err(nom::Err::Failure(NomError::new(input, ErrorKind::Tag))),
@@ -1229,6 +1247,26 @@ fn parse_v4_port_borrowed<'a>(
     Ok((
         input,
         BorrowedTerm::Port(ExternalPort::new(node, id, creation)),
+    ))
+}
+
+fn parse_new_port_borrowed<'a>(
+    input: &'a [u8],
+    original_len: usize,
+    ctx: &mut ParsingContext,
+) -> NomResult<'a, BorrowedTerm<'a>> {
+    let (input, node_term) = parse_term_borrowed(input, original_len, ctx)?;
+    let node = match node_term {
+        BorrowedTerm::Atom(a) => Atom::new(a.as_ref()),
+        _ => return Err(nom::Err::Failure(NomError::new(input, ErrorKind::Tag))),
+    };
+
+    let (input, id) = be_u32(input)?;
+    let (input, creation) = be_u32(input)?;
+
+    Ok((
+        input,
+        BorrowedTerm::Port(ExternalPort::new(node, id as u64, creation)),
     ))
 }
 
